@@ -30,7 +30,7 @@ from __future__ import annotations
 import ast
 
 from ..repo import AnalysisError, FuncInfo, dotted, own_nodes
-from .common import resolve_root, source_pos
+from .common import resolve_root, source_pos, step_of
 
 MANIFEST = {
     "text": (
@@ -158,11 +158,27 @@ def run(ctx):
     # ---------------------------------------------------------------- R19.c
     n_draw = 0
     owner_ok = False
+    # judged on the flattened methods (private helpers, also module-level
+    # ones that are handed the RNG, inlined) plus the raw module-level helpers
+    # of the generator modules (for draws from the global module)
+    seen_sites = set()
+    units = []
     for c in cone:
-        for m in list(c.methods.values()):
+        for m0 in list(c.methods.values()):
+            units.append(ctx.norm.flat(m0, depth=4) if m0.name != "__init__" else m0)
+    gen_modules = {c.module.name for c in cone}
+    for mi_ in repo.modules.values():
+        if mi_.name in gen_modules:
+            units += [f for f in mi_.functions.values() if not isinstance(f.node, ast.Lambda)]
+    for _c in [None]:
+        for m in units:
             for n in own_nodes(m.node):
                 if not isinstance(n, ast.Call):
                     continue
+                key = (getattr(n, "lineno", 0), getattr(n, "col_offset", 0), ast.unparse(n))
+                if key in seen_sites:
+                    continue
+                seen_sites.add(key)
                 d = dotted(n.func) or ""
                 q = repo.resolve(m.module.name, d) or d
                 if q == "random.Random":
@@ -256,7 +272,7 @@ def run(ctx):
     _pool_and_shape(ctx, gen_cls, generate, cro)
 
 
-ROLE = {"limit": "_iteration_limit", "iter": "_current_iteration", "counter": "_counter", "namer": None}
+ROLE = {"limit": "_iteration_limit", "iter": "_current_iteration", "counter": "_counter", "namer": None, "step": 1}
 
 
 def _self_attr(e):
@@ -285,7 +301,16 @@ def _find_roles(ctx, base, cone):
     if limit is None:
         raise AnalysisError("InstanceGenerator.__init__: attribute holding iteration_limit not found")
     it = None
-    for n in own_nodes(nxt.node):
+    step = None
+    nxtf = ctx.norm.flat(nxt)
+    for n in own_nodes(nxtf.node):
+        tg = n.target if isinstance(n, ast.AugAssign) else n.targets[0] if isinstance(n, ast.Assign) and len(n.targets) == 1 else None
+        if tg is not None and _self_attr(tg):
+            k = step_of(ctx, nxtf, n, f"self.{tg.attr}")
+            if k in (1, -1):
+                it, step = tg.attr, k
+    ROLE["step"] = step
+    for n in own_nodes(nxt.node) if it is None else []:
         if isinstance(n, ast.Compare):
             n = ctx.norm.xexpr(nxt, n)  # local aliases of the attributes expanded
             attrs = [_self_attr(x) for x in [n.left] + list(n.comparators)]
@@ -385,44 +410,77 @@ def _distinct_machines(ctx, cro_raw, op_cls):
 def _jobs_vs_machines(ctx, generate_raw):
     chk = ctx.chk
     flag = "allow_less_jobs_than_machines"
-    generate = ctx.norm.flat(generate_raw)
-    draws = [
+    generate = ctx.norm.flat(generate_raw, depth=4)
+    defs = ctx.flow.defs(generate)
+
+    def closure_exprs(e):
+        """e and every expression its names are defined from (by name, all definitions)."""
+        seen, work, out = set(), [e], []
+        while work:
+            cur = work.pop()
+            out.append(cur)
+            for x in ast.walk(cur):
+                if isinstance(x, ast.Name) and x.id not in seen:
+                    seen.add(x.id)
+                    for d in defs.of(x.id):
+                        if d[1] is not None:
+                            work.append(d[1])
+        return out, seen
+
+    def from_attr(e, attr):
+        return any(isinstance(x, ast.Attribute) and x.attr == attr for c in closure_exprs(e)[0] for x in ast.walk(c))
+
+    def from_jobs(e):
+        """depends on the job count: the public `num_jobs` parameter or a draw from num_jobs_range"""
+        exprs, names = closure_exprs(e)
+        return "num_jobs" in names or any(isinstance(x, ast.Attribute) and x.attr == "num_jobs_range" for c in exprs for x in ast.walk(c))
+
+    randints = [
         n for n in own_nodes(generate.node)
-        if isinstance(n, ast.Assign) and isinstance(n.targets[0], ast.Name) and n.targets[0].id.startswith("num_machines")
-        and isinstance(n.value, ast.Call) and isinstance(n.value.func, ast.Attribute) and n.value.func.attr == "randint"
-        and "machines_per_operation" not in ast.unparse(n.value)
+        if isinstance(n, ast.Call) and isinstance(n.func, ast.Attribute) and n.func.attr == "randint" and len(n.args) == 2
     ]
-    if len(draws) != 1 or len(draws[0].value.args) != 2:
-        raise AnalysisError("generate: sampling of num_machines not recognised")
-    lo, hi = draws[0].value.args
-    caps = {}
-    for n in own_nodes(generate.node):
-        if isinstance(n, ast.If) and flag in ast.unparse(n.test) and isinstance(n.test, ast.UnaryOp):
-            for m in n.body:
-                if isinstance(m, ast.Assign) and isinstance(m.targets[0], ast.Name):
-                    v = m.value
-                    if isinstance(v, ast.Call) and isinstance(v.func, ast.Name) and v.func.id in ("min", "max"):
-                        args = {ast.unparse(a) for a in v.args}
-                        caps[m.targets[0].id] = (v.func.id, "num_jobs" in args, m)
-    hi_name = hi.id if isinstance(hi, ast.Name) else None
-    lo_name = lo.id if isinstance(lo, ast.Name) else None
-    if hi_name in caps and caps[hi_name][0] == "min" and caps[hi_name][1]:
-        chk.ok("R19.b", generate.qualname, generate.loc(caps[hi_name][2]), "upper bound capped by min(num_jobs, ...)")
-    elif isinstance(hi, ast.Call) and isinstance(hi.func, ast.Name) and hi.func.id == "min" and "num_jobs" in {ast.unparse(a) for a in hi.args}:
-        chk.ok("R19.b", generate.qualname, generate.loc(hi), "upper bound capped inline")
-    elif lo_name in caps and caps[lo_name][1]:
+    draws = [n for n in randints if from_attr(n.args[0], "num_machines_range") or from_attr(n.args[1], "num_machines_range")]
+    if len(draws) != 1:
+        raise AnalysisError("generate: sampling of the machine count from num_machines_range not recognised")
+    lo, hi = draws[0].args
+
+    def capped(e):
+        """a `min(...)` with an operand that depends on the job count among the definitions of e"""
+        for c in closure_exprs(e)[0]:
+            for x in ast.walk(c):
+                if isinstance(x, ast.Call) and isinstance(x.func, ast.Name) and x.func.id == "min" and any(from_jobs(a) and not from_attr(a, "num_machines_range") for a in x.args):
+                    return x
+        return None
+
+    flag_seen = any(isinstance(n, ast.If) and flag in ast.unparse(n.test) for n in own_nodes(generate.node)) or any(
+        isinstance(n, ast.IfExp) and flag in ast.unparse(n.test) for n in own_nodes(generate.node))
+    hc, lc_ = capped(hi), capped(lo)
+    # the cap of the lower bound in the repaired code is min(lower, upper): it inherits
+    # the job count only through the (already capped) upper bound
+    lo_direct = None
+    for c in closure_exprs(lo)[0]:
+        for x in ast.walk(c):
+            if isinstance(x, ast.Call) and isinstance(x.func, ast.Name) and x.func.id == "min" and any(
+                (isinstance(a, ast.Name) and a.id == "num_jobs") or (isinstance(a, ast.Name) and from_attr(a, "num_jobs_range") and not from_attr(a, "num_machines_range"))
+                for a in x.args
+            ):
+                lo_direct = x
+    if hc is not None and flag_seen:
+        chk.ok("R19.b", generate.qualname, generate.loc(hc), "upper bound of the machine draw capped by min(job count, ...)")
+    elif lo_direct is not None:
         chk.violation(
-            "R19.b", generate, caps[lo_name][2],
+            "R19.b", generate, lo_direct,
             f"with {flag}=False the *lower* bound of the machine count is clamped "
-            f"(`{ast.unparse(caps[lo_name][2])}`) and the upper bound is left alone: instances with more "
+            f"(`{ast.unparse(lo_direct)}`) and the upper bound is left alone: instances with more "
             "machines than jobs are still generated",
-            loc=generate.loc(caps[lo_name][2]),
+            loc=generate.loc(lo_direct),
         )
     else:
         chk.violation("R19.b", generate, draws[0], f"the sampled machine count is never capped by the job count when {flag} is False", loc=generate.loc(draws[0]))
+    del lc_
     # explicit request: raising guard evaluated after num_jobs is known
     eng = ctx.engine(
-        relevant=lambda e: e.kind == "raise", max_depth=2,
+        relevant=lambda e: e.kind == "raise", max_depth=3,
         inline_filter=lambda t: t.name.startswith("_") and t.cls is not None and t.cls.qualname in generate_raw.cls.mro,
     )
     seen_guard = False
@@ -452,45 +510,53 @@ def _jobs_vs_machines(ctx, generate_raw):
 
 
 def _iterator(ctx, base):
+    """R19.e for both spellings of the protocol:
+    count-up    S from 0, +1 per instance, stop when limit is set and S >= limit
+    count-down  S from the limit, -1 per instance (when a limit is set), stop when S is set and S <= 0"""
+    from .common import path_atoms
+
     chk = ctx.chk
     nxt, it = base.methods.get("__next__"), base.methods.get("__iter__")
-    if nxt is None or it is None:
-        raise AnalysisError("InstanceGenerator.__iter__/__next__ vanished")
-    eng = ctx.engine(relevant=lambda e: True, max_depth=0)
+    init = base.methods.get("__init__")
+    if nxt is None or it is None or init is None:
+        raise AnalysisError("InstanceGenerator.__init__/__iter__/__next__ vanished")
+    S, LIM, step = ROLE["iter"], ROLE["limit"], ROLE.get("step")
+    if S is None or step not in (1, -1):
+        chk.violation("R19.e", nxt, None, "__next__ advances the iteration count 0 times per yielded instance (must be once, by one)")
+        return
+    st_txt, lim_txt = f"self.{S}", f"self.{LIM}"
+    eng = ctx.engine(relevant=lambda e: True, max_depth=1)
     ok = True
     n_ret = 0
+    saw_stop = False
     for p in eng.paths(nxt, base):
-        incs = [e for e in p.events if e.kind == "write" and not e.data.get("local") and ROLE["iter"] is not None and ROLE["iter"] in (e.data.get("chain") or [])]
+        atoms = path_atoms(ctx, p.events)
+        steps = [
+            e for e in p.events
+            if e.kind == "write" and not e.data.get("local") and S in (e.data.get("chain") or [])
+        ]
+        if step == 1:
+            limited = atoms.get(f"{lim_txt} is None") is False
+            reached = atoms.get(f"{st_txt} < {lim_txt}") is False
+            unlimited = atoms.get(f"{lim_txt} is None") is True
+        else:
+            limited = atoms.get(f"{st_txt} is None") is False
+            reached = (
+                atoms.get(f"0 < {st_txt}") is False or atoms.get(f"0 == {st_txt}") is True or atoms.get(f"{st_txt} == 0") is True
+                or atoms.get(f"{st_txt} < 1") is True
+            )
+            unlimited = atoms.get(f"{st_txt} is None") is True
         if p.outcome == "raise":
             if p.events[-1].data.get("exc") != "StopIteration":
                 ok = False
                 chk.violation("R19.e", nxt, p.events[-1].node, "__next__ raises something other than StopIteration", loc=p.events[-1].loc)
-            if incs:
-                ok = False
-                chk.violation("R19.e", nxt, incs[0].node, "the iteration count advances on the StopIteration path", loc=incs[0].loc)
-            continue
-        n_ret += 1
-        if len(incs) != 1 or not (isinstance(incs[0].node, ast.AugAssign) and isinstance(incs[0].node.value, ast.Constant) and incs[0].node.value.value == 1):
-            ok = False
-            chk.violation("R19.e", nxt, incs[0].node if incs else None, f"__next__ advances the iteration count {len(incs)} times per yielded instance (must be once, by one)")
-        rv = p.events[-1].data.get("value") if p.events and p.events[-1].kind == "return" else None
-        if rv is None or ast.unparse(rv) != "self.generate()":
-            ok = False
-            chk.violation("R19.e", nxt, rv, "__next__ does not return self.generate()")
-    from .common import path_atoms
-
-    A_LIM = f"self.{ROLE['limit']} is None"
-    A_CMP = f"self.{ROLE['iter']} < self.{ROLE['limit']}"
-    saw_stop = False
-    for p in eng.paths(nxt, base):
-        atoms = path_atoms(ctx, p.events)
-        lim_set = atoms.get(A_LIM) is False
-        reached = atoms.get(A_CMP) is False
-        if p.outcome == "raise" and p.events[-1].data.get("exc") == "StopIteration":
+                continue
             saw_stop = True
-            if not (lim_set and reached):
-                # off-by-one and friends
-                strict = atoms.get(f"self.{ROLE['limit']} < self.{ROLE['iter']}") is True
+            if steps:
+                ok = False
+                chk.violation("R19.e", nxt, steps[0].node, "the iteration count advances on the StopIteration path", loc=steps[0].loc)
+            if not (limited and reached):
+                strict = step == 1 and atoms.get(f"{lim_txt} < {st_txt}") is True
                 ok = False
                 chk.violation(
                     "R19.e", nxt, p.events[-1].node,
@@ -499,27 +565,55 @@ def _iterator(ctx, base):
                     loc=p.events[-1].loc,
                 )
                 break
-        elif p.outcome == "return" and lim_set and reached:
+            continue
+        n_ret += 1
+        if limited and reached:
             ok = False
             chk.violation("R19.e", nxt, p.events[-1].node, "__next__ yields an instance although the iteration limit is reached", loc=p.events[-1].loc)
+            break
+        want_steps = 0 if (step == -1 and unlimited) else 1
+        good = len(steps) == want_steps and all(step_of(ctx, e.fi, e.node, st_txt) == step for e in steps)
+        if not good:
+            ok = False
+            chk.violation("R19.e", nxt, steps[0].node if steps else None, f"__next__ advances the iteration count {len(steps)} times per yielded instance (must be once, by one)")
+            break
+        rv = p.events[-1].data.get("value") if p.events and p.events[-1].kind == "return" else None
+        if rv is None or ctx.norm.xtext(nxt, rv) != "self.generate()":
+            ok = False
+            chk.violation("R19.e", nxt, rv, "__next__ does not return self.generate()")
             break
     if not saw_stop and ok:
         ok = False
         chk.violation("R19.e", nxt, None, "no StopIteration guard `limit is not None and current >= limit`")
     if ok and n_ret:
-        chk.ok("R19.e", nxt.qualname, nxt.loc(), "StopIteration at the limit; one increment; returns generate()")
-    # __iter__
-    writes = [n for n in own_nodes(it.node) if isinstance(n, (ast.Assign, ast.AugAssign))]
-    w_ok = any(isinstance(n, ast.Assign) and ast.unparse(n.targets[0]) == f"self.{ROLE['iter']}" and isinstance(n.value, ast.Constant) and n.value.value == 0 for n in writes)
-    r_ok = any(isinstance(n, ast.Return) and ast.unparse(n.value) == "self" for n in own_nodes(it.node))
-    if w_ok and r_ok:
+        chk.ok("R19.e", nxt.qualname, nxt.loc(), "StopIteration at the limit; one step per instance; returns generate()" + (" (count-down form)" if step == -1 else ""))
+
+    # the state starts (constructor) and restarts (__iter__) at the same initial value
+    def initial_ok(fi, v):
+        if v is None:
+            return False
+        if step == 1:
+            return isinstance(v, ast.Constant) and v.value == 0
+        t = ctx.norm.xtext(fi, v)
+        return t in (lim_txt, "iteration_limit")
+
+    def store_of(fi):
+        for n in own_nodes(fi.node):
+            tgs = n.targets if isinstance(n, ast.Assign) else [n.target] if isinstance(n, ast.AnnAssign) and n.value is not None else []
+            if any(_self_attr(t) == S for t in tgs):
+                return n
+        return None
+
+    w_it, w_init = store_of(it), store_of(init)
+    r_ok = any(isinstance(n, ast.Return) and n.value is not None and ast.unparse(n.value) == "self" for n in own_nodes(it.node))
+    if w_it is not None and initial_ok(it, w_it.value) and r_ok and w_init is not None and initial_ok(init, w_init.value):
         chk.ok("R19.e", it.qualname, it.loc(), "restarts the iteration count, returns self")
     else:
-        chk.violation("R19.e", it, None, "__iter__ does not restart the iteration count at 0 and return self: a second pass yields a different number of instances")
+        chk.violation("R19.e", it, w_it, "__iter__ does not restart the iteration count at its initial value and return self: a second pass yields a different number of instances")
     ln = base.methods.get("__len__")
     if ln is not None:
         rets = [n for n in own_nodes(ln.node) if isinstance(n, ast.Return)]
-        if rets and all(ctx.norm.xtext(ln, r.value) == f"self.{ROLE['limit']}" for r in rets):
+        if rets and all(ctx.norm.xtext(ln, r.value) == lim_txt for r in rets):
             chk.ok("R19.e", ln.qualname, ln.loc(), "len = iteration limit")
         else:
             chk.violation("R19.e", ln, rets[-1] if rets else None, "__len__ is not the iteration limit")
@@ -527,58 +621,112 @@ def _iterator(ctx, base):
 
 def _pool_and_shape(ctx, gen_cls, generate_raw, cro):
     chk = ctx.chk
-    generate = ctx.norm.flat(generate_raw)
+    generate = ctx.norm.flat(generate_raw, depth=4)
+    defs = ctx.flow.defs(generate)
+    parents = generate.module.parents
+
+    def closure_names_attrs(e):
+        seen, attrs, work = set(), set(), [e]
+        while work:
+            cur = work.pop()
+            for x in ast.walk(cur):
+                if isinstance(x, ast.Attribute):
+                    attrs.add(x.attr)
+                if isinstance(x, ast.Name) and x.id not in seen:
+                    seen.add(x.id)
+                    for d in defs.of(x.id):
+                        if d[1] is not None:
+                            work.append(d[1])
+        return seen, attrs
+
+    def from_jobs(e):
+        n, a = closure_names_attrs(e)
+        return "num_jobs" in n or "num_jobs_range" in a
+
+    def from_machines(e):
+        n, a = closure_names_attrs(e)
+        return "num_machines" in n or "num_machines_range" in a
+
+    def range_count(it):
+        """X when the iterable is range(X), directly or through local aliases."""
+        x = ctx.norm.xexpr(generate, it)
+        if isinstance(x, ast.Call) and isinstance(x.func, ast.Name) and x.func.id == "range" and len(x.args) == 1:
+            return x.args[0]
+        return None
+
+    sites = [
+        n for n in own_nodes(generate.node)
+        if isinstance(n, ast.Call) and isinstance(n.func, ast.Attribute) and n.func.attr == "create_random_operation"
+    ]
+    if len(sites) != 1:
+        raise AnalysisError("generate: exactly one create_random_operation call site expected")
+    site = sites[0]
+    # enclosing iterations (innermost first) and conditions
+    iters, conds = [], []
+    child, cur = site, parents.get(site)
+    while cur is not None and cur is not generate.node:
+        if isinstance(cur, ast.For) and child in cur.body:
+            iters.append((cur, cur.iter))
+        elif isinstance(cur, (ast.ListComp, ast.GeneratorExp)):
+            for g in reversed(cur.generators):
+                iters.append((cur, g.iter))
+                conds += list(g.ifs)
+        elif isinstance(cur, (ast.If, ast.While)):
+            conds.append(cur.test)
+        child, cur = cur, parents.get(cur)
+    if len(iters) != 2:
+        raise AnalysisError(f"generate: {len(iters)} iteration levels around create_random_operation (2 expected: jobs x operations)")
+    (inner_node, inner_it), (o, outer_it) = iters
+    mcount, jcount = range_count(inner_it), range_count(outer_it)
+    def plain(e):
+        # the count itself (a variable / record field), not an expression computed from it
+        return isinstance(e, (ast.Name, ast.Attribute))
+
+    shape_ok = (
+        mcount is not None and jcount is not None and plain(mcount) and plain(jcount)
+        and from_machines(mcount) and from_jobs(jcount)
+    )
     xt = lambda e: ctx.norm.xtext(generate, e).replace(" ", "")  # noqa: E731
-    outer = [n for n in generate.node.body if isinstance(n, ast.For)]
-    if len(outer) != 1:
-        raise AnalysisError("generate: job loop not recognised")
-    o = outer[0]
-    # operations of one job: an inner for-loop with one append, or a
-    # comprehension, over range(num_machines)
-    inner_for = [n for n in o.body if isinstance(n, ast.For)]
-    comps = [n for st in o.body for n in ast.walk(st) if isinstance(n, ast.ListComp)]
-    ops_iter = None
-    once = False
-    if len(inner_for) == 1:
-        i = inner_for[0]
-        ops_iter = xt(i.iter)
-        op_app = [n for n in ast.walk(i) if isinstance(n, ast.Call) and isinstance(n.func, ast.Attribute) and n.func.attr == "append"]
-        once = len(op_app) == 1 and not any(isinstance(n, (ast.If, ast.Break, ast.Continue)) for n in ast.walk(i))
-    elif len(comps) >= 1:
-        c = [c for c in comps if any(isinstance(x, ast.Call) and isinstance(x.func, ast.Attribute) and x.func.attr == "create_random_operation" for x in ast.walk(c.elt))]
-        if len(c) == 1 and len(c[0].generators) == 1 and not c[0].generators[0].ifs:
-            ops_iter = xt(c[0].generators[0].iter)
-            once = True
-    if ops_iter is None:
-        raise AnalysisError("generate: operation loop not recognised")
-    if xt(o.iter) == "range(num_jobs)" and ops_iter == "range(num_machines)":
-        chk.ok("R19.g", generate_raw.qualname, generate.loc(o), "range(num_jobs) x range(num_machines)")
+    if shape_ok:
+        chk.ok("R19.g", generate_raw.qualname, generate.loc(o), "one job per step of range(<job count>), one operation per step of range(<machine count>)")
     else:
         chk.violation(
             "R19.g", generate_raw, o,
-            f"jobs are built over `{xt(o.iter)}` x `{ops_iter}` instead of "
+            f"jobs are built over `{xt(outer_it)}` x `{xt(inner_it)}` instead of "
             "range(num_jobs) x range(num_machines): wrong number of jobs or operations per job",
             loc=generate.loc(o),
         )
-    job_app = [
-        st for st in o.body
-        if isinstance(st, ast.Expr) and isinstance(st.value, ast.Call) and isinstance(st.value.func, ast.Attribute)
-        and st.value.func.attr == "append" and isinstance(st.value.func.value, ast.Name)
-    ]
-    if len(job_app) == 1 and once and not any(isinstance(n, (ast.Break, ast.Continue)) for n in ast.walk(o)):
+    skips = bool(conds) or any(isinstance(n, (ast.Break, ast.Continue)) for n in ast.walk(o))
+    # loop form: exactly one append per level; the per-job list is created inside the job loop
+    once = True
+    if isinstance(inner_node, ast.For):
+        apps = [n for n in ast.walk(inner_node) if isinstance(n, ast.Call) and isinstance(n.func, ast.Attribute) and n.func.attr == "append"]
+        once = len(apps) == 1
+        if once and isinstance(apps[0].func.value, ast.Name) and isinstance(o, ast.For):
+            lst = apps[0].func.value.id
+            fresh = any(
+                isinstance(n, (ast.Assign, ast.AnnAssign)) and n.value is not None and isinstance(n.value, ast.List) and not n.value.elts
+                and any(isinstance(t, ast.Name) and t.id == lst for t in (n.targets if isinstance(n, ast.Assign) else [n.target]))
+                for n in o.body
+            )
+            if not fresh:
+                chk.violation("R19.g", generate_raw, o, "the per-job operation list is not re-created for each job", loc=generate.loc(o))
+    if isinstance(o, ast.For):
+        japps = [
+            st for st in o.body if isinstance(st, ast.Expr) and isinstance(st.value, ast.Call) and isinstance(st.value.func, ast.Attribute)
+            and st.value.func.attr == "append" and isinstance(st.value.func.value, ast.Name)
+        ]
+        once = once and len(japps) == 1
+    if once and not skips:
         chk.ok("R19.g", generate_raw.qualname, generate.loc(o), "one job per step, one operation per inner step")
     else:
         chk.violation("R19.g", generate_raw, o, "jobs/operations are not appended exactly once per loop step", loc=generate.loc(o))
-    if inner_for:
-        fresh_job = any(isinstance(n, ast.Assign) and ast.unparse(n.targets[0]) == "job" and isinstance(n.value, ast.List) and not n.value.elts for n in o.body)
-        if not fresh_job:
-            chk.violation("R19.g", generate_raw, o, "the per-job operation list is not re-created for each job", loc=generate.loc(o))
     # sizes and durations from the configured ranges
     want = {"num_jobs": "num_jobs_range", "duration": "duration_range"}
-    for m, (var, rng) in ((generate_raw, ("num_jobs", "num_jobs_range")), (cro, ("duration", "duration_range"))):
+    for m, (var, rng) in ((generate, ("num_jobs", "num_jobs_range")), (ctx.norm.flat(cro, depth=3), ("duration", "duration_range"))):
         hit = False
         for n in own_nodes(m.node):
-            if isinstance(n, ast.Assign) and isinstance(n.targets[0], ast.Name) and n.targets[0].id == var and isinstance(n.value, ast.Call):
+            if isinstance(n, ast.Assign) and isinstance(n.targets[0], ast.Name) and n.targets[0].id.split("__")[0] == var and isinstance(n.value, ast.Call):
                 c = n.value
                 if isinstance(c.func, ast.Attribute) and c.func.attr == "randint":
                     hit = True
@@ -589,19 +737,28 @@ def _pool_and_shape(ctx, gen_cls, generate_raw, cro):
                         chk.violation("R19.g", m, n, f"`{var}` is drawn as `{a}`, not from self.{rng}", loc=m.loc(n))
         if not hit:
             raise AnalysisError(f"{m.qualname}: draw of {var} not recognised")
-    # R19.f pool: re-created inside the job loop from num_machines
-    pool = None
-    for n in own_nodes(generate.node):
-        if isinstance(n, ast.Call) and isinstance(n.func, ast.Attribute) and n.func.attr == "create_random_operation" and n.args and isinstance(n.args[0], ast.Name):
-            pool = n.args[0].id
-    if pool is None:
+    # R19.f pool: re-created for every job from the machine count
+    parg = site.args[0] if site.args else next((kw.value for kw in site.keywords), None)
+    if not isinstance(parg, ast.Name):
         raise AnalysisError("generate: pool passed to create_random_operation not recognised")
-    in_loop = [n for n in o.body if isinstance(n, ast.Assign) and ast.unparse(n.targets[0]) == pool]
+    pool = parg.id
+    pdefs = [n for n in own_nodes(generate.node) if isinstance(n, (ast.Assign, ast.AnnAssign)) and n.value is not None
+             and any(isinstance(t, ast.Name) and t.id == pool for t in (n.targets if isinstance(n, ast.Assign) else [n.target]))]
+
+    def inside(n, container):
+        c = parents.get(n)
+        while c is not None and c is not generate.node:
+            if c is container:
+                return True
+            c = parents.get(c)
+        return False
+
+    in_loop = [n for n in pdefs if inside(n, o) and not inside(n, inner_node)] if isinstance(o, ast.For) else []
+
     def fresh_full_pool(v):
-        """list(range(num_machines)), possibly through a one-level copy of a
-        template that is itself that list and is never mutated or handed out."""
+        """list(range(<machine count>)), possibly through one-level copies of a
+        template that is itself that list/range and is never mutated or handed out."""
         x = v
-        root = None
         for _ in range(3):
             if isinstance(x, ast.Call) and isinstance(x.func, ast.Attribute) and x.func.attr == "copy" and not x.args:
                 x = x.func.value
@@ -618,15 +775,19 @@ def _pool_and_shape(ctx, gen_cls, generate_raw, cro):
                 if isinstance(c, ast.Call) and (
                     (isinstance(c.func, ast.Attribute) and isinstance(c.func.value, ast.Name) and c.func.value.id == root
                      and c.func.attr in ("remove", "pop", "append", "extend", "clear", "sort", "reverse", "insert"))
-                    or any(isinstance(a, ast.Name) and a.id == root for a in list(c.args) + [k.value for k in c.keywords])
-                    and not (isinstance(c.func, ast.Name) and c.func.id in ("list", "len", "tuple", "sorted"))
+                    or any(isinstance(a, ast.Name) and a.id == root for a in list(c.args) + [kw.value for kw in c.keywords])
+                    and not (isinstance(c.func, ast.Name) and c.func.id in ("list", "len", "tuple", "sorted", "range"))
                 )
             ]
             if touched:
                 return False
-        return xt(x if x is not v else v).replace(" ", "") in ("list(range(num_machines))", "range(num_machines)") and (
-            x is not v or xt(v).replace(" ", "") == "list(range(num_machines))"
-        )
+        full = ctx.norm.xexpr(generate, x if x is not v else v)
+        if isinstance(full, ast.Call) and isinstance(full.func, ast.Name) and full.func.id == "list" and len(full.args) == 1:
+            if x is v or True:
+                full = full.args[0]
+        elif x is v:
+            return False  # the pool itself must be a fresh list, not a shared range/list
+        return isinstance(full, ast.Call) and isinstance(full.func, ast.Name) and full.func.id == "range" and len(full.args) == 1 and from_machines(full.args[0])
 
     if in_loop and all(fresh_full_pool(n.value) for n in in_loop):
         chk.ok("R19.f", generate_raw.qualname, generate.loc(in_loop[0]), "machine pool re-created for every job")
@@ -639,15 +800,23 @@ def _pool_and_shape(ctx, gen_cls, generate_raw, cro):
         )
     # judged on the flattened create_random_operation (the private
     # single-machine helper inlined), so its name does not matter
-    one = ctx.norm.flat(cro, depth=3)
+    one = ctx.norm.flat(cro, depth=4)
     rm = None
+    ok_rm = False
+    choices = [
+        n for n in own_nodes(one.node)
+        if isinstance(n, ast.Assign) and isinstance(n.value, ast.Call) and isinstance(n.value.func, ast.Attribute)
+        and n.value.func.attr == "choice" and n.value.args
+    ]
     for n in own_nodes(one.node):
-        if isinstance(n, ast.If) and ast.unparse(n.test) == "not self.allow_recirculation":
+        if isinstance(n, ast.If) and ctx.norm.xtext(one, n.test).replace(" ", "") in ("notself.allow_recirculation", "self.allow_recirculationisFalse"):
             for m in n.body:
-                if isinstance(m, ast.Expr) and isinstance(m.value, ast.Call) and isinstance(m.value.func, ast.Attribute) and m.value.func.attr == "remove":
+                if isinstance(m, ast.Expr) and isinstance(m.value, ast.Call) and isinstance(m.value.func, ast.Attribute) and m.value.func.attr == "remove" and m.value.args:
                     rm = m.value
-    chosen = [n for n in own_nodes(one.node) if isinstance(n, ast.Assign) and isinstance(n.value, ast.Call) and isinstance(n.value.func, ast.Attribute) and n.value.func.attr == "choice"]
-    if rm is not None and chosen and ast.unparse(rm.args[0]) == ast.unparse(chosen[0].targets[0]) and ast.unparse(rm.func.value) == ast.unparse(chosen[0].value.args[0]):
+                    for c in choices:
+                        if ast.unparse(rm.args[0]) == ast.unparse(c.targets[0]) and ast.unparse(rm.func.value) == ast.unparse(c.value.args[0]):
+                            ok_rm = True
+    if ok_rm:
         chk.ok("R19.f", one.qualname, one.loc(rm), "chosen machine removed from the pool when recirculation is off")
     else:
         chk.violation("R19.f", one, rm, "without recirculation the chosen machine is not removed from the pool it was drawn from: a job can visit a machine twice")
